@@ -369,6 +369,8 @@ def oracle_c16(cid, impl, m):
          mapper leaves keto_uuid_mappings byte-identical; err≠none ⇒ nothing inserted.
     e2e: REST write ok ⇒ REST list = gRPC list = the written multiset, the list filtered by X and both
          expands of X return exactly the written strings; the read API inserted no mapping."""
+    if impl.get("x_bigbatch"):
+        return ("c16-big-batch", "one write above the mapping table's insert chunk size: " + impl["x_bigbatch"])
     if "err" in impl:
         if "sc" not in m or "wantn" not in m:
             return None
